@@ -82,6 +82,10 @@ pub fn vocab(lang: &str) -> Vec<&'static str> {
             "metal", "mailbox", "yellow", "detector", "the", "of", "straße", "uber", "cafe", "ö", "o\u{308}", "möbel", "mo\u{308}bel", "naïve", "e\u{301}", "été", "e\u{301}te\u{301}",
             "auto\u{ad}mat", "automat", "\u{ad}soft", "hy\u{ad}\u{ad}phen", "end\u{ad}",
         ],
+        "xs" => vec![
+            "één", "óók", "kopje", "kopjes", "koffie", "fietsen", "fiets", "lopen", "loop", "huizen", "huis", "mogelijkheid", "mogelijkheden", "vrijheid", "Één", "ÉÉN",
+            "metal", "mailbox", "yellow", "detector", "de", "het", "een", "wandelen", "gewandeld", "zeeën", "ideeën", "café", "cafés", "überhaupt", "à", "èn",
+        ],
         "xr" => vec![
             "café", "cafe", "CAFÉ", "cafe\u{301}", "straße", "strasse", "STRASSE", "GROẞ", "groß", "smørrebrød", "smoerrebroed", "Øl", "øl", "été", "ete", "é", "ß", "ø",
             "metal", "mailbox", "yellow", "detector", "the", "of", "über", "u\u{308}ber", "fußball", "fussball", "résumé", "resume",
@@ -178,6 +182,13 @@ pub fn any_word(rng: &mut Rng, lang: &str) -> String {
             }
             _ => rand_word(rng, &alpha, 18, 70),
         },
+        17 if rng.chance(1, 6) => {
+            // letters outside the Basic Multilingual Plane (Deseret, lower case with one-to-one capitals): ordinary letters
+            // to the tokeniser, two UTF-16 units and four UTF-8 bytes each
+            let deseret: Vec<char> = (0..12u32).filter_map(|k| std::char::from_u32(0x10428 + k)).collect();
+            let w = rand_word(rng, &deseret, 3, 9);
+            if rng.chance(1, 4) { format!("{}{}", rand_word(rng, &alpha, 1, 3), w) } else { w }
+        }
         18 if rng.chance(1, 3) => {
             // symbols that neither split words nor count as letters, inside a word: "c++11", "4''x6", "a**b", "tcp/ip"
             let sym: Vec<char> = "+*/'\"#_=@%^~|$".chars().collect();
@@ -519,6 +530,7 @@ pub fn suffixes(lang: &str) -> Vec<&'static str> {
         "fr" => vec!["é", "ée", "ées", "ère", "ement", "es", "ât", "ions"],
         "pt" => vec!["ção", "ções", "mente", "os", "ável", "ês", "ão"],
         "ru" => vec!["ами", "ов", "ём", "ёт", "ой", "ая", "ого", "ить"],
+        "xs" => vec!["en", "je", "jes", "heid", "heden", "ën", "s"],
         _ => vec!["ing", "s"],
     }
 }
